@@ -36,6 +36,9 @@ CLAIMED = {
 }
 
 CLAIMED.update({
+ "C06": ("held on N executions: every execution of every generated fragment's script that the lazy exploration reached over the alphabet (usually exhaustively; budget overruns are counted) agreed with the library's label: consumed elements, result shape per base type, unit, signed, forced, and existence of a signature-free dissatisfaction",
+         "trusted base: refvm + lazy exploration; forged labels are refuted in every run as oracle control; bounded by fragment size (<= 9 / 14 nodes)",
+         "runtime monitoring: reference-model monitor (each explored input stack is a concrete VM execution checked against the static label)"),
  "C07": ("held on N executions: the lifted policy of generated descriptors evaluated in sampled asset worlds equals the existence of a STANDARD-valid witness (library witness executed in the VM, else lazy search to exhaustion); budget exhaustion is inconclusive",
          "trusted base: refvm + lazy search, pol.rs evaluator and own policy parser; lift() refusing a descriptor is counted, not judged",
          "runtime monitoring: reference-model monitor (policy truth vs witness existence in an independent Script VM)"),
